@@ -495,7 +495,8 @@ fn print_in(e: &E, body: bool) -> Option<String> {
             format!("{} [{}]", vs, print_in(eff, true)?)
         }
         E::SideBefore(eff, v) => {
-            if !is_simple_value(v) {
+            // a leading block is taken over by a value, a prefix-operator expression, a group or a nested expression
+            if !is_simple_value(v) && !matches!(**v, E::Pre(..) | E::Group(_) | E::Nested(..)) {
                 return None;
             }
             format!("[{}]{}", print_in(eff, true)?, print_in(v, false)?)
